@@ -10,6 +10,7 @@
 #include <stdlib.h>
 #include <string.h>
 #include <time.h>
+#include <unistd.h>
 #include "nsync_cpp.h"
 #include "platform.h"
 #include "compiler.h"
@@ -44,7 +45,7 @@ static struct {
 	int refs;
 	nsync_atomic_uint32_ *nwrec[RT_MAXT];
 	int sleeps[RT_MAXT], inlock[RT_MAXT];
-	int mu_freed;
+	int mu_freed; uint32_t word_at_free;
 	int done_ops[RT_MAXT];
 } S;
 static int maxsleeps;
@@ -151,7 +152,7 @@ static void client (void *arg) {
 		case O_DEBUG: { char buf[400]; ip++; nsync_mu_debug_state_and_waiters (S.mu, buf, (int) sizeof buf); break; }
 		case O_NOTIFY: ip++; rt_noyield_begin (); S.notified = 1; nsync_note_notify (S.note); rt_noyield_end (); break;
 		case O_DECREF: ip++; S.refs--; S.ret[t] = (S.refs == 0); break;
-		case O_FREEIFLAST: ip++; if (S.ret[t] == 1) { S.mu_freed = 1; rt_free (S.mu); } break;
+		case O_FREEIFLAST: ip++; if (S.ret[t] == 1) { S.word_at_free = *(volatile uint32_t *) &S.mu->word; S.mu_freed = 1; rt_free (S.mu); } break;
 		default: ip++; break;
 		}
 	}
@@ -251,11 +252,10 @@ static size_t put_queue (char *buf, size_t n, nsync_dll_list_ list) {
 static void obs (char *buf, size_t n) {
 	size_t o = 0; int i;
 	uint32_t word, cvword;
-	if (S.mu_freed) { snprintf (buf, n, "freed"); return; }
 	scan_waiters ();
-	word = *(volatile uint32_t *) &S.mu->word; cvword = *(volatile uint32_t *) &S.cv->word;
+	word = S.mu_freed ? S.word_at_free : *(volatile uint32_t *) &S.mu->word; cvword = *(volatile uint32_t *) &S.cv->word;
 	o += (size_t) snprintf (buf + o, n - o, "word=%u q=", word);
-	if (word & MU_SPINLOCK) o += (size_t) snprintf (buf + o, n - o, "[]"); else o += put_queue (buf + o, n - o, S.mu->waiters);
+	if ((word & MU_SPINLOCK) || S.mu_freed) o += (size_t) snprintf (buf + o, n - o, "[]"); else o += put_queue (buf + o, n - o, S.mu->waiters);
 	o += (size_t) snprintf (buf + o, n - o, " cvword=%u cvq=", cvword);
 	if (cvword & CV_SPINLOCK) o += (size_t) snprintf (buf + o, n - o, "[]"); else o += put_queue (buf + o, n - o, S.cv->waiters);
 	PUTARR ("mw", waiter_id ((waiter *) rt_tls_waiter (i)));
@@ -427,6 +427,57 @@ static int run_random (long runs, unsigned seed, const char *init, const char *v
 	return viols ? 1 : 0;
 }
 
+
+/* ---- C14 adversary: a never-waited thread takes the mutex in every window between the victim's wake-up and its
+   next attempt.  Thread 1 is the victim, the others (Loopers) barge.  Judged by O-starve only. ---- */
+static int run_adversary (const char *init, const char *violdir, const char *prop) {
+	long guard = 0;
+	int i, rounds = 0;
+	char *sched = NULL; size_t sl = 0; FILE *sf = open_memstream (&sched, &sl);
+	rt_reset ();
+	setup (init);
+	fprintf (sf, "T 1 %s\n", init);
+#define GRANT(t) do { rt_grant (t); note_step (t); fprintf (sf, "S %d * *\n", (t) + 1); guard++; } while (0)
+	/* let a barger take the mutex first so that the victim has to queue */
+	for (i = 1; i < S.n && rt_held_by (S.mu, i) == 0 && guard < 1000; ) { if (rt_enabled (i)) GRANT (i); else i++; }
+	while (rt_state (0) != F_DONE && guard < 400000 && !rt_first_violation ()) {
+		int progressed = 0;
+		/* 1. the victim runs until it sleeps or finishes */
+		while (rt_enabled (0) && rt_state (0) != F_DONE && guard < 400000 && !rt_first_violation ()) { GRANT (0); progressed = 1; }
+		if (rt_state (0) == F_DONE) break;
+		/* 2. bargers run until the victim has been woken (its semaphore posted) */
+		for (i = 1; i < S.n && !rt_enabled (0) && guard < 400000; ) {
+			if (rt_enabled (i)) { GRANT (i); progressed = 1; } else i++;
+		}
+		/* 3. a barger that has not waited grabs the mutex before the victim's next attempt */
+		for (i = 1; i < S.n && guard < 400000; i++) {
+			int k = 0;
+			while (rt_enabled (i) && rt_held_by (S.mu, i) == 0 && k++ < 200) { GRANT (i); progressed = 1; }
+			if (rt_held_by (S.mu, i) != 0) break;
+		}
+		rounds++;
+		if (!progressed) break;
+	}
+	fclose (sf);
+	if (!rt_first_violation () && rt_state (0) != F_DONE) {
+		if (guard >= 400000) rt_violation ("O-starve", "victim still has not acquired after %d adversarial rounds (%d sleeps inside one lock call)", rounds, S.sleeps[0]);
+		else finish (1);
+	}
+	printf ("MAXSLEEPS %d\n", maxsleeps);
+	if (rt_first_violation ()) {
+		const struct rt_viol *v = rt_first_violation ();
+		char path[512] = "-";
+		if (violdir) { FILE *o; snprintf (path, sizeof path, "%s/%s_adv_%d.sched", violdir, prop, (int) getpid ()); o = fopen (path, "w"); if (o) { fputs (sched, o); fputs ("E\n", o); fclose (o); } }
+		printf ("VIOL %s|%s|thread %d|step %ld|%s|%s\n", v->oracle, v->fn, v->tid, v->step, path, v->msg);
+		printf ("STATS tours=1 steps=%ld matched=0 diverged=0 mismatches=0 violations=1 nontrivial=1\n", guard);
+		free (sched);
+		return 1;
+	}
+	printf ("STATS tours=1 steps=%ld matched=1 diverged=0 mismatches=0 violations=0 nontrivial=1\n", guard);
+	free (sched);
+	return 0;
+}
+
 int main (int argc, char **argv) {
 	static struct rp_harness h = { setup, pre, env, obs, finish, post, NULL };
 	struct rp_stats st;
@@ -448,6 +499,7 @@ int main (int argc, char **argv) {
 		printf ("MAXSLEEPS %d\n", maxsleeps);
 		return st.violations ? 1 : 0;
 	}
+	if (!strcmp (argv[1], "adversary") && argc >= 3) return run_adversary (argv[2], argc > 3 ? argv[3] : NULL, prop);
 	if (!strcmp (argv[1], "random") && argc >= 5) {
 		if (argc > 6) trace = fopen (argv[6], "w");
 		return run_random (atol (argv[2]), (unsigned) atol (argv[3]), argv[4], argc > 5 ? argv[5] : NULL, prop);
